@@ -123,7 +123,7 @@ class _SeamJson:
     @staticmethod
     def loads(s, **kw):
         from engineio import json as _j
-        if s[:6] == '{"sid"':
+        if s[:8] == '{"sid":"' and len(s) > 40:
             return _j.loads(s, **kw)
         raise ValueError('not json')
 
